@@ -211,25 +211,25 @@ def parse_input_const_value_node(
             ),
         )
         if not nested_object:
+            model = generate_call(
+                func=generate_attribute(
+                    value=generate_subscript(
+                        value=generate_call(func=generate_name("globals")),
+                        slice_=generate_constant(field_type),
+                    ),
+                    attr=MODEL_VALIDATE_METHOD,
+                ),
+                args=[dict_],
+            )
+            if nested_list:
+                # an item of a list default: the enclosing list is already
+                # wrapped in Field(default_factory=lambda: [...])
+                return model
             return generate_call(
                 func=generate_name(FIELD_CLASS),
                 keywords=[
                     generate_keyword(
-                        value=generate_lambda(
-                            body=generate_call(
-                                func=generate_attribute(
-                                    value=generate_subscript(
-                                        value=generate_call(
-                                            func=generate_name("globals")
-                                        ),
-                                        slice_=generate_constant(field_type),
-                                    ),
-                                    attr=MODEL_VALIDATE_METHOD,
-                                ),
-                                args=[dict_],
-                            )
-                        ),
-                        arg="default_factory",
+                        value=generate_lambda(body=model), arg="default_factory"
                     )
                 ],
             )
